@@ -16,16 +16,16 @@ func serveMeta(run *report.Run) {
 
 func init() {
 	checks["C06"] = func(run *report.Run) error {
-		run.Rule = "histories of 1–5 requests on one container; 0–3 container, 0–2 service and 0–2 route filters of kind pass/stop/replace(new Request+Response)/middleware(HttpMiddlewareHandlerToFilter wrapping the writer), scripts that write, set headers and attributes, panic; all six entry points; every stage records the attributes, parameters, selected route path and response wrappers it sees; Spec.c06Holds (the event list Spec.chainLog demands) is evaluated on every real log; non-trivial = more than one stage ran"
+		run.Rule = "histories of 1–5 requests on one container; 0–3 container, 0–2 service and 0–2 route filters (the service's filters registered before its routes, after them, after Container.Add, or interleaved with the routes) of kind pass/stop/replace(new Request+Response)/middleware(HttpMiddlewareHandlerToFilter wrapping the writer), scripts that write, set headers and attributes, panic; all six entry points, and on a third of the containers a RouteSelector of the harness around the built-in router that refuses one path with a plain error value (not a ServiceError: Spec.c06RouterErrorHolds, the container filters around nothing); every stage records the attributes, parameters, selected route path and response wrappers it sees; Spec.c06Holds (the event list Spec.chainLog demands) is evaluated on every real log; non-trivial = more than one stage ran"
 		serveMeta(run)
 		n := sizes(run, 700, 14000)
 		serve.SmallPayloads = true // the subject is the stage log, not the coding
 		defer func() { serve.SmallPayloads = false }()
 		p := serve.PropSpec{ID: "C06", SpecKey: "C06", Proj: serve.ProjLog}
-		if err := serve.Check(run, p, serve.GenOpts{Router: "curly", PanicPct: 3}, n, 5, "curly"); err != nil {
+		if err := serve.Check(run, p, serve.GenOpts{Router: "curly", PanicPct: 3, RouterErr: true}, n, 5, "curly"); err != nil {
 			return err
 		}
-		if err := serve.Check(run, p, serve.GenOpts{Router: "jsr", PanicPct: 3}, n/2, 5, "jsr"); err != nil {
+		if err := serve.Check(run, p, serve.GenOpts{Router: "jsr", PanicPct: 3, RouterErr: true}, n/2, 5, "jsr"); err != nil {
 			return err
 		}
 		// "regardless of … concurrent requests": the same requests served concurrently, overlapping for certain
@@ -50,7 +50,7 @@ func init() {
 		return nil
 	}
 	checks["C10"] = func(run *report.Run) error {
-		run.Rule = "same generator as C06 with a higher panic rate (every filter before/after passing control on, handlers before/after partial output, plain handlers), recovery on/off, custom and default recover handler, encoding on/off, all entry points, histories mixing panicking and normal requests; recover() around the entry point; ledger provider (acquire/release balance, double release, object handed out twice); Spec.c10Holds is evaluated on every real observation; plus 6 fixed regression cases on the HandleWithFilter chain (the former witness of the repaired finding F18: no escape, recover handler once, its status, balanced ledger, c10Holds)"
+		run.Rule = "same generator as C06 with a higher panic rate (every filter before/after passing control on, handlers before/after partial output, plain handlers), recovery on/off, custom and default recover handler, encoding on/off, all entry points, histories mixing panicking and normal requests; recover() around the entry point; panic VALUES: strings, error values, http.ErrAbortHandler, restful.ServiceError values, ints; panics raised INSIDE route selection (an If-condition of a matching route panics while the router runs under the container's read lock); ledger provider (acquire/release balance, double release, object handed out twice); Spec.c10Holds is evaluated on every real observation; after every history a writer operation (Container.Add + Remove of a throw-away WebService) under a watchdog (no lock left held), and with recovery on every request served twice in immediate succession must be answered byte for byte the same (the library's own recover report included); plus 6 fixed regression cases on the HandleWithFilter chain (the former witness of the repaired finding F18: no escape, recover handler once, its status, balanced ledger, c10Holds)"
 		serveMeta(run)
 		n := sizes(run, 700, 14000)
 		// no known class: F18 (HandleWithFilter without recovery) was repaired by a0e838d, a
@@ -80,10 +80,13 @@ func init() {
 		return nil
 	}
 	checks["C19"] = func(run *report.Run) error {
-		run.Rule = "histories of 1–6 requests; every request is answered (a) in its position, (b) alone on a fresh container and provider, (c) with trace logging enabled, (d) concurrently with the other requests of the history (3 goroutines per request); all four answers must be the same (status, framework headers, decoded body, parameters and attributes seen by every stage) and equal to the model's; non-trivial = more than one stage ran"
+		run.Rule = "histories of 1–6 requests; every request is answered (a) in its position, (b) alone on a fresh container and provider, (c) with trace logging enabled, (d) concurrently with the other requests of the history (3 goroutines per request); all four answers must be the same (status, framework headers, decoded body, parameters and attributes seen by every stage) and equal to the model's; routes carry content types and If-conditions, half of the tables have two routes with the same method and path told apart only by Produces / Consumes / a condition, and a third of the later requests repeat the method and path of an earlier one with other headers; scripts write into req.PathParameters() (reserved names) and no stage of another request may see what they wrote; request bodies (intact, truncated, corrupt trailers; identity, gzip, deflate) are read by ReadEntity with trace logging off and on and must be accepted or refused alike; non-trivial = more than one stage ran"
 		serveMeta(run)
 		n := sizes(run, 300, 6000)
-		if err := serve.CheckPurity(run, serve.GenOpts{Router: "curly", PanicPct: 3}, n, 6); err != nil {
+		// Twins: content types and If-conditions on the routes, twins of a route that differ only in
+		// Produces / Consumes / a condition, and histories that repeat the method and path of an
+		// earlier request with other headers (which route answers must not depend on who came first)
+		if err := serve.CheckPurity(run, serve.GenOpts{Router: "curly", PanicPct: 3, Twins: true}, n, 6); err != nil {
 			return err
 		}
 		// the filters the framework ships are part of "the response": histories through one CORS filter
@@ -96,6 +99,10 @@ func init() {
 			return err
 		}
 		if err := mime.CheckHistoryPurity(run, n); err != nil {
+			return err
+		}
+		// request bodies — intact and broken, plain and compressed — read with and without trace logging
+		if err := entity.CheckTracePurity(run, n); err != nil {
 			return err
 		}
 		// request bodies read at the same moment (Request.ReadEntity, every provider)
